@@ -354,12 +354,11 @@ def leaf_texts(node):
     warnings.simplefilter("ignore")
     c = copy.deepcopy(node)
     t = c.format()
-    if node.padding is None:
-        c2 = copy.deepcopy(node)
-        c2.padding = sn.PaddingNode(" ")
-        t2 = c2.format()
-    else:
-        t2 = t
+    # the text once the padding has been set to one blank (ListNode.format does that to a node without padding,
+    # ShortcutNode._format_expanded to every value that only exists through the shortcut)
+    c2 = copy.deepcopy(node)
+    c2.padding = sn.PaddingNode(" ")
+    t2 = c2.format()
     return t, t2
 
 
@@ -401,7 +400,38 @@ def log_tables(s, new):
     return "".join(first), "".join(fwd), "".join(rev)
 
 
-def dump_sc(ids, s, new):
+def post_bits(s, leading=None):
+    """the two numeric decisions of ShortcutNode.format the model takes as inputs, computed from the state the
+    shortcut is formatted in: (LOG_INTERPOLATE: numeric part of _describes_its_values, MULTIPLY: the printed
+    multiplier reproduces the product within rel_tol / 2)"""
+    from montepy.constants import rel_tol, abs_tol
+    from montepy.utilities import fortran_float
+    k = node_kind(s)
+    ld = mo = True
+    try:
+        nodes = list(s.nodes)
+        if leading is not None and len(leading.nodes) > 0:
+            nodes.insert(0, leading.nodes[-1])
+        vals = [n.value for n in nodes]
+        if k == "L" and len(vals) >= 3 and all(v is not None for v in vals) and vals[0] > 0 and vals[-1] > 0:
+            b, e = math.log(vals[0], 10), math.log(vals[-1], 10)
+            sp = (e - b) / (len(vals) - 1)
+            ld = all(math.isclose(v, 10 ** (b + sp * i), rel_tol=rel_tol, abs_tol=abs_tol)
+                     for i, v in enumerate(vals))
+        if k == "M" and len(vals) == 2 and all(v is not None for v in vals):
+            nn = copy.deepcopy(s._num_node)
+            with warnings.catch_warnings():
+                warnings.simplefilter("ignore")
+                if vals[0] != 0:
+                    nn.value = vals[1] / vals[0]
+                t = nn.format().strip()
+            mo = math.isclose(vals[0] * fortran_float(t), vals[1], rel_tol=rel_tol / 2, abs_tol=abs_tol)
+    except Exception:
+        pass
+    return ("1" if ld else "0") + ":" + ("1" if mo else "0")
+
+
+def dump_sc(ids, s, new, bits="1:1"):
     k = node_kind(s)
     orig = s._original
     if len(orig) == 0:
@@ -429,14 +459,29 @@ def dump_sc(ids, s, new):
     return ":".join([str(ids.sid(s)), k, ids_, "1" if s._shares_edge else "0", str(len(orig)), hx(otok),
                      "-" if nt is None else "x" + str(nt).encode().hex(),
                      str(og) if isinstance(og, int) else "-",
-                     hx(ep), hx(mp_), fq(b), fq(e), fq(sp), "1" if s._full else "0", t1 or "-", t2 or "-", t3 or "-"])
+                     hx(ep), hx(mp_), fq(b), fq(e), fq(sp), "1" if s._full else "0", t1 or "-", t2 or "-", t3 or "-",
+                     bits])
+
+
+class UpdRequest:
+    """the dump of a ListNode before update_with_new_values; the request text is complete once the real update
+    has run (the two numeric format decisions of every shortcut are taken from the state it ends up in)"""
+
+    def __init__(self, ids, ln, new):
+        self.leaves = "|".join(dump_leaf(ids, n) for n in new) or "-"
+        self.shorts = list(ln._shortcuts)
+        self.pre = [dump_sc(ids, s, new, bits="@") for s in self.shorts]
+        self.fresh = max([1000] + list(ids.sc.values())) + 1
+
+    def text(self):
+        scs = "|".join(p.replace("@", post_bits(s)) for p, s in zip(self.pre, self.shorts)) or "-"
+        return f"upd {scs} {self.leaves} {self.fresh}"
 
 
 def upd_request(ids, ln, new):
-    leaves = "|".join(dump_leaf(ids, n) for n in new) or "-"
-    scs = "|".join(dump_sc(ids, s, new) for s in ln._shortcuts) or "-"
-    fresh = max([1000] + list(ids.sc.values())) + 1
-    return f"upd {scs} {leaves} {fresh}", fresh
+    """request of a list that is not going to be updated for real (bits from the state as it is)"""
+    u = UpdRequest(ids, ln, new)
+    return u.text(), u.fresh
 
 
 def fmt_request(ids, ln):
@@ -452,7 +497,14 @@ def fmt_request(ids, ln):
             pool.append(n)
             order.append("v%d" % ids.lid(n))
     leaves = "|".join(dump_leaf(ids, n) for n in pool) or "-"
-    scs = "|".join(dump_sc(ids, s, []) for s in ln.nodes if isinstance(s, sn.ShortcutNode)) or "-"
+    scd = []
+    prev = None
+    for s in ln.nodes:
+        if isinstance(s, sn.ShortcutNode):
+            lead = prev if (isinstance(prev, sn.ShortcutNode) and s._shares_edge) else None
+            scd.append(dump_sc(ids, s, [], bits=post_bits(s, lead)))
+        prev = s
+    scs = "|".join(scd) or "-"
     return f"fmt {scs} {leaves} {';'.join(order) or '-'}"
 
 
@@ -491,8 +543,9 @@ def fill_multipliers(text, snap, numnodes):
         nn = copy.deepcopy(numnodes[sid])
         with warnings.catch_warnings():
             warnings.simplefilter("ignore")
-            nn.value = snap[b] / snap[a]
-            return nn.format()
+            if snap[a] != 0:
+                nn.value = snap[b] / snap[a]
+            return nn.format().strip()
     return re.sub(r"\{M:(\d+):(\d+):(\d+)\}", sub, text)
 
 
@@ -525,7 +578,8 @@ def observe_update(ln, new, ids=None):
     ob.values = []
     for n in new:
         ob.values.append(n.value)
-    ob.request, fresh = upd_request(ids, ln, new)
+    ureq = UpdRequest(ids, ln, new)
+    fresh = ureq.fresh
     numnodes = {ids.sid(s): s._num_node for s in ln._shortcuts}
     ob.numnodes = {k: copy.deepcopy(v) for k, v in numnodes.items()}
     ob.ids = ids
@@ -541,6 +595,7 @@ def observe_update(ln, new, ids=None):
         ob.error = ERRMAP[type(e).__name__]
         ob.structure = None
         ob.text = None
+    ob.request = ureq.text()
     return ob
 
 
@@ -1079,11 +1134,11 @@ class Patch:
                 return patch.orig(ln, new_vals)
             try:
                 ids = Ids()
-                req, fresh = upd_request(ids, ln, list(new_vals))
+                ureq = UpdRequest(ids, ln, list(new_vals))
+                fresh = ureq.fresh
             except Exception:
                 return patch.orig(ln, new_vals)
             ob = Observation()
-            ob.request = req
             ob.ids = ids
             ob.values = [n.value for n in new_vals]
             ob.numnodes = {ids.sid(s): copy.deepcopy(s._num_node) for s in ln._shortcuts}
@@ -1097,8 +1152,10 @@ class Patch:
             except (IndexError, ZeroDivisionError, TypeError, ValueError) as e:
                 ob.error = ERRMAP[type(e).__name__]
                 ob.structure = ob.text = None
+                ob.request = ureq.text()
                 patch.obs.append(ob)
                 raise
+            ob.request = ureq.text()
             patch.obs.append(ob)
         self.sn.ListNode.update_with_new_values = patched
         return self
